@@ -1,5 +1,6 @@
 import GJS.Model.Gen
 import GJS.Model.Run
+import GJS.Spec
 /-
   C11 — allOf is conjunction and anyOf is disjunction for object schemas.
   What decides the property inside the tool: (1) the emitted anyOf statement "try every branch type, fail only
@@ -139,5 +140,258 @@ theorem KF_allOf_overlap_first_wins :
   decide +kernel
 
 example : (mergeNode 4 (.mk { required := ["a"] }) (.mk { required := ["b"] })).node.required = ["a", "b"] := rfl
+
+/-! ### allOf = conjunction, on the reference semantics: the schema the outer type is generated from (the mergo
+    fold of the branches) admits exactly the objects every branch admits -/
+
+/-- an object branch the theorem speaks about: a plain inline object schema (references are resolved before the
+    merge; nested composition, enum, not and additionalProperties are outside this statement) -/
+structure PlainObj (s : Schema) : Prop where
+  noRef : s.node.ref = ""
+  noNot : s.node.hasNot = false
+  types : s.node.types = [] ∨ s.node.types = ["object"]
+  noEnum : s.node.enum = none
+  noAll : s.node.allOf = []
+  noAny : s.node.anyOf = []
+  noAddl : s.node.addl = none
+  nodup : (akeys s.node.props).Nodup
+
+theorem alookup_append {α : Type} (k : String) (d s : List (String × α)) :
+    alookup k (d ++ s) = (match alookup k d with | some v => some v | none => alookup k s) := by
+  induction d with
+  | nil => simp [alookup]
+  | cons p rest ih =>
+    obtain ⟨k', v⟩ := p
+    simp only [List.cons_append, alookup]
+    by_cases h : k = k'
+    · simp [h]
+    · simp [h, ih]
+
+/-- disjoint, duplicate-free maps merge to their concatenation (nothing is merged INTO anything) -/
+theorem mergeKvs_disjoint :
+    ∀ (s d : List (String × Schema)) (f : Nat), s.length < f → (∀ k ∈ akeys s, k ∉ akeys d) → (akeys s).Nodup →
+      mergeKvs f d s = d ++ s := by
+  intro s
+  induction s with
+  | nil => intro d f _ _ _; cases f <;> simp [mergeKvs]
+  | cons p rest ih =>
+    obtain ⟨k, v⟩ := p
+    intro d f hf hdis hnd
+    cases f with
+    | zero => simp at hf
+    | succ f =>
+      simp only [List.length_cons] at hf
+      cases f with
+      | zero => omega
+      | succ f =>
+        have hk : alookup k d = none := (alookup_none_iff_not_mem k d).mpr (hdis k (by simp [akeys]))
+        simp only [mergeKvs, mergeEntry, hk]
+        simp only [akeys, List.map_cons, List.nodup_cons] at hnd
+        rw [ih (d ++ [(k, v)]) (f + 1) (by omega) ?_ hnd.2]
+        · simp
+        · intro k' hk'
+          have h1 : k' ∉ akeys d := hdis k' (by simp only [akeys, List.map_cons, List.mem_cons]; right; exact hk')
+          have h2 : k' ≠ k := by
+            intro e; subst e; exact hnd.1 hk'
+          simp only [akeys, List.map_append, List.map_cons, List.map_nil, List.mem_append, List.mem_singleton] at h1 ⊢
+          intro h; rcases h with h | h
+          · exact h1 h
+          · exact h2 h
+
+/-- the per-entry check of an object splits over two property maps with disjoint keys -/
+theorem validProps_append (defs : Spec.Defs) (pa pb : List (String × Schema)) (all : List (String × Json))
+    (hdis : ∀ k ∈ akeys pb, k ∉ akeys pa) :
+    ∀ (kvs : List (String × Json)) (F : Nat),
+      Spec.validProps F defs (pa ++ pb) none all kvs =
+        (Spec.validProps F defs pa none all kvs && Spec.validProps F defs pb none all kvs) := by
+  intro kvs
+  induction kvs with
+  | nil => intro F; cases F <;> simp [Spec.validProps]
+  | cons p rest ih =>
+    obtain ⟨k, v⟩ := p
+    intro F
+    cases F with
+    | zero => simp [Spec.validProps]
+    | succ F =>
+      simp only [Spec.validProps, ih F, alookup_append]
+      cases ha : alookup k pa with
+      | some ps =>
+        have hb : alookup k pb = none := by
+          rw [alookup_none_iff_not_mem]
+          intro hin
+          exact hdis k hin ((alookup_isSome_iff_mem k pa).mp (by simp [ha]))
+        simp only [hb]
+        cases Spec.valid F defs ps v <;> cases Spec.validProps F defs pa none all rest <;> cases Spec.validProps F defs pb none all rest <;> rfl
+      | none =>
+        cases alookup k pb with
+        | none => simp
+        | some ps =>
+          simp only [Bool.true_and]
+          cases Spec.valid F defs ps v <;> cases Spec.validProps F defs pa none all rest <;> cases Spec.validProps F defs pb none all rest <;> rfl
+
+theorem hasType_object (kvs : List (String × Json)) : Spec.hasType "object" (.obj kvs) = true := rfl
+
+/-- what `valid` reads of a plain object schema, on an object -/
+theorem valid_plainObj (defs : Spec.Defs) (s : Schema) (h : PlainObj s) (kvs : List (String × Json)) (F : Nat) :
+    Spec.valid (F + 2) defs s (.obj kvs) =
+      (s.node.required.all (fun k => ahas k kvs) && Spec.validProps (F + 1) defs s.node.props none kvs kvs) := by
+  have ht : (s.node.types.isEmpty || s.node.types.any (fun tn => Spec.hasType tn (.obj kvs))) = true := by
+    rcases h.types with e | e <;> simp [e, hasType_object]
+  simp only [Spec.valid, h.noRef, h.noNot, h.noEnum, h.noAll, h.noAny, h.noAddl, ht, Spec.validAll]
+  simp
+
+/-- with too little fuel nothing is valid (so statements "for every fuel" are not vacuous at the bottom) -/
+theorem valid_low (defs : Spec.Defs) (s : Schema) (h : PlainObj s) (d : Json) : Spec.valid 0 defs s d = false ∧ Spec.valid 1 defs s d = false := by
+  constructor
+  · simp [Spec.valid]
+  · simp [Spec.valid, h.noRef, Spec.validAll]
+
+@[simp] theorem node_mk (n : NodeF Schema) : (Schema.mk n).node = n := rfl
+
+/-- the merge of two plain object schemas with disjoint properties is again one, with both key sets -/
+theorem merge_plainObj (a b : Schema) (g : Nat) (ha : PlainObj a) (hb : PlainObj b)
+    (hdis : ∀ k ∈ akeys b.node.props, k ∉ akeys a.node.props) (hg : b.node.props.length < g) :
+    PlainObj (mergeNode (g + 1) a b) ∧ (mergeNode (g + 1) a b).node.props = a.node.props ++ b.node.props ∧
+    (mergeNode (g + 1) a b).node.required = a.node.required ++ b.node.required := by
+  obtain ⟨na⟩ := a
+  obtain ⟨nb⟩ := b
+  obtain ⟨a1, a2, a3, a4, a5, a6, a7, a8⟩ := ha
+  obtain ⟨b1, b2, b3, b4, b5, b6, b7, b8⟩ := hb
+  simp only [node_mk] at *
+  have hp : (mergeNode (g + 1) (.mk na) (.mk nb)).node.props = na.props ++ nb.props := by
+    simp only [mergeNode, node_mk]
+    exact mergeKvs_disjoint _ _ g hg hdis b8
+  refine ⟨⟨?_, ?_, ?_, ?_, ?_, ?_, ?_, ?_⟩, hp, ?_⟩
+  · simp [mergeNode, firstStr, a1, b1]
+  · simp [mergeNode, a2, b2]
+  · simp only [mergeNode, node_mk]
+    rcases a3 with e | e <;> rcases b3 with e' | e' <;> simp [e, e']
+  · simp [mergeNode, a4, b4]
+  · simp [mergeNode, a5, b5]
+  · simp [mergeNode, a6, b6]
+  · simp [mergeNode, a7, b7, mergeOpt]
+  · rw [hp]
+    simp only [akeys, List.map_append]
+    rw [List.nodup_append]
+    refine ⟨a8, b8, ?_⟩
+    intro x hx y hy e
+    subst e
+    exact hdis x hy hx
+  · simp [mergeNode]
+
+/-- **two branches**: the merged schema admits an object iff both branches do -/
+theorem merge_valid_conj (defs : Spec.Defs) (a b : Schema) (g : Nat) (ha : PlainObj a) (hb : PlainObj b)
+    (hdis : ∀ k ∈ akeys b.node.props, k ∉ akeys a.node.props) (hg : b.node.props.length < g)
+    (kvs : List (String × Json)) (F : Nat) :
+    Spec.valid F defs (mergeNode (g + 1) a b) (.obj kvs) =
+      (Spec.valid F defs a (.obj kvs) && Spec.valid F defs b (.obj kvs)) := by
+  obtain ⟨hm, hp, hr⟩ := merge_plainObj a b g ha hb hdis hg
+  match F with
+  | 0 => simp [(valid_low defs _ hm _).1, (valid_low defs _ ha _).1]
+  | 1 => simp [(valid_low defs _ hm _).2, (valid_low defs _ ha _).2]
+  | F + 2 =>
+    rw [valid_plainObj defs _ hm, valid_plainObj defs _ ha, valid_plainObj defs _ hb, hp, hr,
+      validProps_append defs _ _ kvs hdis, List.all_append]
+    generalize a.node.required.all _ = r1
+    generalize b.node.required.all _ = r2
+    cases r1 <;> cases r2 <;> cases Spec.validProps (F + 1) defs a.node.props none kvs kvs <;>
+      cases Spec.validProps (F + 1) defs b.node.props none kvs kvs <;> rfl
+
+theorem plainObj_empty : PlainObj (.mk {}) :=
+  ⟨rfl, rfl, Or.inl rfl, rfl, rfl, rfl, rfl, by simp [akeys]⟩
+
+/-- the branches' property names are pairwise disjoint -/
+def Disjoint (a b : Schema) : Prop := ∀ k ∈ akeys b.node.props, k ∉ akeys a.node.props
+
+/-- **any number of branches**, folded the way `schemas.MergeTypes` folds them (from the accumulator `acc`) -/
+theorem fold_valid_conj (defs : Spec.Defs) (kvs : List (String × Json)) (F : Nat) :
+    ∀ (bs : List Schema) (acc : Schema), PlainObj acc → (∀ b ∈ bs, PlainObj b) → (∀ b ∈ bs, b.node.props.length < 63) →
+      (∀ b ∈ bs, Disjoint acc b) → bs.Pairwise Disjoint →
+      Spec.valid F defs (bs.foldl (fun acc b => mergeNode 64 acc b) acc) (.obj kvs) =
+        (Spec.valid F defs acc (.obj kvs) && bs.all (fun b => Spec.valid F defs b (.obj kvs))) := by
+  intro bs
+  induction bs with
+  | nil => intro acc _ _ _ _ _; simp
+  | cons b rest ih =>
+    intro acc hacc hall hlen hdis hpw
+    have hb := hall b (List.mem_cons_self ..)
+    obtain ⟨hm, hp, _⟩ := merge_plainObj acc b 63 hacc hb (hdis b (List.mem_cons_self ..)) (hlen b (List.mem_cons_self ..))
+    rw [List.pairwise_cons] at hpw
+    simp only [List.foldl_cons, List.all_cons]
+    rw [ih (mergeNode 64 acc b) hm (fun x hx => hall x (List.mem_cons_of_mem _ hx)) (fun x hx => hlen x (List.mem_cons_of_mem _ hx)) ?_ hpw.2,
+      merge_valid_conj defs acc b 63 hacc hb (hdis b (List.mem_cons_self ..)) (hlen b (List.mem_cons_self ..)), Bool.and_assoc]
+    intro x hx k hk
+    rw [hp]
+    simp only [akeys, List.map_append, List.mem_append]
+    intro h
+    rcases h with h | h
+    · exact hdis x (List.mem_cons_of_mem _ hx) k hk h
+    · exact hpw.1 x hx k hk h
+
+theorem fold_fst (z : Schema → Schema → Bool) :
+    ∀ (bs : List Schema) (a : Schema) (w : Bool),
+      (bs.foldl (fun (acc : Schema × Bool) b => (mergeNode 64 acc.1 b, acc.2 || z acc.1 b)) (a, w)).1 =
+        bs.foldl (fun acc b => mergeNode 64 acc b) a := by
+  intro bs
+  induction bs with
+  | nil => intro a w; rfl
+  | cons b rest ih => intro a w; simp only [List.foldl_cons]; exact ih _ _
+
+/-- the generator's private flags are invisible to the reference semantics -/
+theorem valid_flags (defs : Spec.Defs) (r : Schema) (d : Json) (F : Nat) :
+    Spec.valid F defs (.mk { r.node with subElem := false, anyOfCount := 0, isAllOf := false }) d = Spec.valid F defs r d := by
+  obtain ⟨n⟩ := r
+  cases F with
+  | zero => simp [Spec.valid]
+  | succ F => simp only [Spec.valid, node_mk]; cases d <;> rfl
+
+/-- an object some plain branch admits is admitted by the empty schema at the same fuel -/
+theorem valid_empty_of_valid (defs : Spec.Defs) (b : Schema) (hb : PlainObj b) (kvs : List (String × Json)) (F : Nat)
+    (h : Spec.valid F defs b (.obj kvs) = true) : Spec.valid F defs (.mk {}) (.obj kvs) = true := by
+  match F with
+  | 0 => rw [(valid_low defs _ hb _).1] at h; cases h
+  | 1 => rw [(valid_low defs _ hb _).2] at h; cases h
+  | F + 2 =>
+    rw [valid_plainObj defs _ hb] at h
+    rw [valid_plainObj defs _ plainObj_empty]
+    have := validProps_append defs [] b.node.props kvs (by simp [akeys]) kvs (F + 1)
+    simp only [List.nil_append] at this
+    simp only [Bool.and_eq_true] at h
+    rw [h.2] at this
+    simp only [node_mk, List.all_nil, Bool.true_and]
+    cases hx : Spec.validProps (F + 1) defs [] none kvs kvs with
+    | true => rfl
+    | false => rw [hx] at this; cases this
+
+/-- **C11, allOf = conjunction** (reference semantics of the schema the outer type is generated from): for plain
+    object branches with pairwise disjoint property names, the schema `schemas.MergeTypes` folds them into admits an
+    object iff every branch admits it — for every fuel, every definition table, any number of branches -/
+theorem allOf_is_conjunction (defs : Spec.Defs) (bs : List Schema) (m : Schema)
+    (hplain : ∀ b ∈ bs, PlainObj b) (hlen : ∀ b ∈ bs, b.node.props.length < 63) (hpw : bs.Pairwise Disjoint)
+    (hprim : isPrimitiveTypeList bs = false) (hm : mergeTypes bs = .ok m)
+    (kvs : List (String × Json)) (F : Nat) :
+    Spec.valid F defs m (.obj kvs) = bs.all (fun b => Spec.valid F defs b (.obj kvs)) := by
+  unfold mergeTypes at hm
+  cases bs with
+  | nil => simp at hm
+  | cons b0 rest =>
+    simp only [List.isEmpty_cons, Bool.false_eq_true, ↓reduceIte, hprim] at hm
+    split at hm
+    · cases hm
+    · injection hm with hm
+      subst hm
+      rw [valid_flags, fold_fst,
+        fold_valid_conj defs kvs F (b0 :: rest) (.mk {}) plainObj_empty hplain hlen (by intro b _ k _; simp [akeys]) hpw]
+      cases hall : (b0 :: rest).all (fun b => Spec.valid F defs b (.obj kvs)) with
+      | false => simp
+      | true =>
+        have h0 : Spec.valid F defs b0 (.obj kvs) = true := by
+          simp only [List.all_cons, Bool.and_eq_true] at hall; exact hall.1
+        rw [valid_empty_of_valid defs b0 (hplain b0 (List.mem_cons_self ..)) kvs F h0]; rfl
+
+/-- the hypotheses are satisfiable, and the theorem is not about the empty merge: two branches, one requiring `port` -/
+example : PlainObj (.mk { types := ["object"], required := ["port"], props := [("port", .mk { types := ["integer"] })] }) ∧
+    PlainObj (.mk { props := [("tls", .mk { types := ["boolean"] })] }) :=
+  ⟨⟨rfl, rfl, Or.inr rfl, rfl, rfl, rfl, rfl, by simp [akeys]⟩, ⟨rfl, rfl, Or.inl rfl, rfl, rfl, rfl, rfl, by simp [akeys]⟩⟩
 
 end GJS.Props.C11
